@@ -5,13 +5,13 @@ go 1.26.0
 toolchain go1.26.2
 
 require (
+	github.com/glebarez/go-sqlite v1.22.0
 	github.com/sarchlab/akita/v5 v5.0.0
 	golang.org/x/tools v0.39.0
 )
 
 require (
 	github.com/dustin/go-humanize v1.0.1 // indirect
-	github.com/glebarez/go-sqlite v1.22.0 // indirect
 	github.com/google/pprof v0.0.0-20250820193118-f64d9cf942d6 // indirect
 	github.com/google/uuid v1.5.0 // indirect
 	github.com/mattn/go-isatty v0.0.20 // indirect
